@@ -50,10 +50,18 @@ func classify(err error) string {
 }
 
 // runDispCase executes one cell of the C09 table on a fresh real WorkerPoolDispatcher with one worker.
-func runDispCase(fetch, reg, dl, beh, cancelAt string) string {
+// cdl = "later": the dispatch context carries a deadline of its own, far later than the task's — which must
+// change nothing (the task's deadline still reaches the work function, cancellation still propagates).
+func runDispCase(fetch, reg, dl, beh, cancelAt, cdl string) string {
 	var invoked, fetchCalled atomic.Int32
 	var sawCancel, sawDeadline atomic.Bool
-	ctx, cancel := context.WithCancel(context.Background())
+	base := context.Background()
+	if cdl == "later" {
+		var cancelBase context.CancelFunc
+		base, cancelBase = context.WithDeadline(base, time.Now().Add(time.Minute))
+		defer cancelBase()
+	}
+	ctx, cancel := context.WithCancel(base)
 	defer cancel()
 	deadline := option.None[time.Time]()
 	switch dl {
@@ -201,10 +209,14 @@ func dispExec(h sim.History) []string {
 	out := []string{"new disp"}
 	for _, line := range h.Ops {
 		tok := strings.Fields(line)
-		if len(tok) != 6 || tok[0] != "case" {
+		if (len(tok) != 6 && len(tok) != 7) || tok[0] != "case" {
 			continue
 		}
-		out = append(out, line+" -> "+runDispCase(tok[1], tok[2], tok[3], tok[4], tok[5]))
+		cdl := "none"
+		if len(tok) == 7 {
+			cdl = tok[6]
+		}
+		out = append(out, line+" -> "+runDispCase(tok[1], tok[2], tok[3], tok[4], tok[5], cdl))
 	}
 	return append(out, "end")
 }
@@ -233,8 +245,10 @@ func cmdDisp(args []string) {
 							if b == "block" && ca != "running" && dl == "none" {
 								continue // nothing would ever end the work function
 							}
-							hists = append(hists, sim.History{Header: "new disp",
-								Ops: []string{fmt.Sprintf("case %s %s %s %s %s", f, r, dl, b, ca)}})
+							for _, cdl := range []string{"none", "later"} {
+								hists = append(hists, sim.History{Header: "new disp",
+									Ops: []string{fmt.Sprintf("case %s %s %s %s %s %s", f, r, dl, b, ca, cdl)}})
+							}
 						}
 					}
 				}
